@@ -304,12 +304,19 @@ where
         };
 
         let frame = Frame::Message(req_payload);
-        self.write_half.lock().await.send(frame).await?;
+        let write_half = self.write_half.clone();
 
-        let response = tokio::time::timeout(self.request_timeout, rx)
+        // The timeout covers the whole exchange: a request that cannot even be written out in
+        // time (the stream is shared by all clones and subject to flow control) has not been
+        // answered in time either.
+        let exchange = async move {
+            write_half.lock().await.send(frame).await?;
+            rx.await.map_err(|_| SeliumError::RequestFailed)
+        };
+
+        let response = tokio::time::timeout(self.request_timeout, exchange)
             .await
-            .map_err(|_| SeliumError::RequestTimeout)?
-            .map_err(|_| SeliumError::RequestFailed)?;
+            .map_err(|_| SeliumError::RequestTimeout)??;
 
         let decoded = self.decode_response(response)?;
 
